@@ -237,6 +237,22 @@ func c14RunChild(input string, strict bool, maxStackMiB, asMiB int, timeout time
 	return c14ChildResult{crashed: true, reason: reason + " (" + clip(first, 160) + ")"}
 }
 
+// c14Guarded is c13SmlOutcome under a watchdog: "hang" when the call has not returned after 20 s.
+func c14Guarded(entry string, strict bool, text string) (string, string) {
+	type res struct{ out, pmsg string }
+	ch := make(chan res, 1)
+	go func() {
+		o, p := c13SmlOutcome(entry, strict, text)
+		ch <- res{o, p}
+	}()
+	select {
+	case r := <-ch:
+		return r.out, r.pmsg
+	case <-time.After(20 * time.Second):
+		return "hang", ""
+	}
+}
+
 // ---------- inputs ----------
 
 type c14Input struct {
@@ -514,8 +530,15 @@ func runC14(c *Ctx) {
 			}
 			c.Count(fmt.Sprintf("%s|%v|%s", m.entry, m.strict, in.text), strings.Contains(in.text, "<"))
 			replay := map[string]any{"text": clip(in.text, 3000), "hex": clip(c15HexText(in.text), 6000), "strict": m.strict, "entry": m.entry, "tag": in.tag}
-			out, pmsg := c13SmlOutcome(m.entry, m.strict, in.text)
+			out, pmsg := c14Guarded(m.entry, m.strict, in.text)
 			seqOut[i][k] = out
+			if out == "hang" {
+				// the parse is still running after 20 s on a text of at most a few KiB (the proved bound is quadratic in
+				// the length): it does not terminate. The goroutine cannot be stopped, so the run ends here with the
+				// text as the replay (after seeded change C14d-2: an unterminated block comment spinning for ever).
+				c.Violate("property", "parse-does-not-terminate", fmt.Sprintf("parser (strict=%v, %s) still running after 20 s on the %d-byte text %q", m.strict, m.entry, len(in.text), clip(in.text, 200)), replay)
+				return
+			}
 			c.Stat("outcome:" + strings.SplitN(out, " ", 2)[0])
 			if out == "panic" {
 				c.Violate("property", "parse-panic-"+c14NormPanic(pmsg), fmt.Sprintf("parser (strict=%v, %s) panicked on %q: %s", m.strict, m.entry, clip(in.text, 200), pmsg), replay)
@@ -778,6 +801,43 @@ func c14ChildProbes(c *Ctx) {
 		replay["model_result"] = mo
 	}
 	c14JudgeHint(c, text, c14RunChild(text, false, 0, 3072, 60*time.Second), replay)
+
+	// size hints at the integer boundaries (2^31, 2^32, 2^63 +-1, 2^64-1) in all three hint forms on quoted and
+	// numeric items, both modes: whatever the hint, the answer is a result or an error, never a panic (arithmetic
+	// on the hint such as max+2 or idx+1 must not wrap) and never an allocation from the hint. In a child process:
+	// a panic or an out-of-memory there is the finding (after seeded change C14d-1).
+	hintVals := []string{"2147483648", "4294967296", "9223372036854775806", "9223372036854775807", "9223372036854775808", "18446744073709551615"}
+	hintItems := []string{`<A%s "x">`, `<U1%s 1>`, `<L%s <U1 1>>`}
+	if c.Thorough() {
+		hintVals = append(hintVals, "2147483647", "4294967295", "18446744073709551616")
+		hintItems = append(hintItems, `<A%s 0x41>`, `<B%s 0x01>`)
+	}
+	for _, n := range hintVals {
+		for _, form := range []string{"[%s]", "[1..%s]", "[..%s]", "[%s..]"} {
+			hint := fmt.Sprintf(form, n)
+			for _, item := range hintItems {
+				t := "S1F1\n" + fmt.Sprintf(item, hint) + "."
+				for _, strict := range []bool{false, true} {
+					c.Count("child|"+t, true)
+					c.Stat("tag:child-hint-boundary")
+					res := c14RunChild(t, strict, 0, 3072, 60*time.Second)
+					rp := map[string]any{"text": t, "strict": strict, "child": "address space 3 GiB, timeout 60 s"}
+					switch {
+					case res.timedOut:
+						c.Violate("property", "size-hint-preallocation", fmt.Sprintf("parsing %q (strict=%v) did not finish within 60 s", t, strict), rp)
+					case res.crashed:
+						what := "size-hint-preallocation"
+						if strings.Contains(res.reason, "index out of range") || strings.Contains(res.reason, "panic") {
+							what = "parse-panic"
+						}
+						c.Violate("property", what, fmt.Sprintf("parsing the %d-byte text %q (strict=%v) killed the process: %s", len(t), t, strict, res.reason), rp)
+					case res.alloc > 1<<20:
+						c.Violate("property", "size-hint-preallocation", fmt.Sprintf("parsing %q (strict=%v) allocated %d bytes", t, strict, res.alloc), rp)
+					}
+				}
+			}
+		}
+	}
 
 	// F3: nesting. The child's stack limit is lowered to 64 MiB so that the probe is cheap; with
 	// Go's default 1 GiB limit the same happens at ≈ 3·10^6 levels (6 MB of text).
